@@ -228,6 +228,17 @@ def case_pairs(spec):
                 probs.append("(lon=%.17g, lat=%.17g) depth %d: returned pixel (x=%.2f, y=%.2f) of tile %s, nearest pixel centre is (x=%d, y=%d)" % (lo, la, d, x, y, tuple(tile.pos), ix, iy))
         if len(probs) > 4:
             break
+    # the same position given in other numeric types (Python int, numpy scalars, float32 where exactly representable)
+    for la_i, lo_i in ((0, 1), (1, 2), (-1, 4), (0, 0), (np.int64(0), np.float64(2.5)), (np.float32(0.5), np.float32(1.5)), (1, np.int64(3))):
+        for d in (2, 5, 9):
+            ta = tuple(toast.toast_tile_for_point(d, la_i, lo_i, coordsys=cs).pos)
+            tb = tuple(toast.toast_tile_for_point(d, float(la_i), float(lo_i), coordsys=cs).pos)
+            n += 2
+            if ta != tb:
+                c4, _ = rt.tile_corners(tuple(int(v) for v in ta), pl)
+                if float(rt.signed_edge_distances(c4, rt.xyz(float(lo_i), float(la_i))).min()) < -1e-9:
+                    probs.append("lookup of (lon=%r, lat=%r) given as %s/%s at depth %d returns %s, which does not contain the point (as floats: %s)" % (
+                        lo_i, la_i, type(lo_i).__name__, type(la_i).__name__, d, ta, tb))
     # the same lookups made concurrently from four threads must give what they give one after the other
     from vlib import threads
 
